@@ -70,15 +70,12 @@ Theorem C08_constraint_filter_decides_mentions : forall ds v acc s,
 Proof. exact stmt_mentions_b_spec. Qed.
 Print Assumptions C08_constraint_filter_decides_mentions.
 
-(* the booleans the harness observes on every generated cfg are the hypotheses *)
-Theorem C08_keys_distinct_observable : forall g, keys_distinct_b g = true <-> keys_distinct g.
-Proof. exact keys_distinct_b_spec. Qed.
-Print Assumptions C08_keys_distinct_observable.
-
-Theorem C08_constraint_keys_distinct_observable : forall g,
-  constraint_keys_distinct_b g = true <-> constraint_keys_distinct g.
-Proof. exact constraint_keys_distinct_b_spec. Qed.
-Print Assumptions C08_constraint_keys_distinct_observable.
+(* The hypotheses keys_distinct / constraint_keys_distinct / subkeys_distinct are EVALUATED by the
+   model driver on every dumped cfg through their boolean forms keys_distinct_b,
+   constraint_keys_distinct_b, subkeys_distinct_b.  That each boolean is true iff its hypothesis is
+   glue about the model's own definitions (Proofs.SignalAssignProofs.keys_distinct_b_spec,
+   constraint_keys_distinct_b_spec, subkeys_distinct_b_spec): lemmas, not obligations of the
+   property (third audit; they used to be listed here as `*_observable` theorems). *)
 
 (* The source-level form of the hypothesis.  [subkeys_distinct]: no two `<--`
    statements of the cfg agree in (location, base name of the assigned
@@ -90,10 +87,6 @@ Print Assumptions C08_constraint_keys_distinct_observable.
 Theorem C08_subkeys_distinct_suffice : forall g, subkeys_distinct g -> keys_distinct g.
 Proof. exact subkeys_distinct_suffice. Qed.
 Print Assumptions C08_subkeys_distinct_suffice.
-
-Theorem C08_subkeys_distinct_observable : forall g, subkeys_distinct_b g = true <-> subkeys_distinct g.
-Proof. exact subkeys_distinct_b_spec. Qed.
-Print Assumptions C08_subkeys_distinct_observable.
 
 Theorem C08_sigassign_bijection_source_keys : forall g,
   c_kind g = KTemplate -> subkeys_distinct g -> constraint_keys_distinct g ->
@@ -180,9 +173,8 @@ Print Assumptions C08_liftfull_signal_assignment_count.
 (* so distinct source locations give distinct keys: the hypothesis
    [subkeys_distinct] (which implies [keys_distinct], C08_subkeys_distinct_suffice)
    holds of the lifted graph whenever no two `<--` statements of the source have
-   the same meta.  (The graph here is the one BEFORE SSA; that SSA keeps the
-   substitutions' metas is C04_ssa_blocks_from_input, that it keeps their
-   operators is observed by the dump comparison of the `ir` engine.) *)
+   the same meta.  (The graph here is the one BEFORE SSA; the step through SSA is
+   C08_ssa_keeps_operators ff. below.) *)
 Theorem C08_liftfull_distinct_sources_distinct_subkeys : forall kind params pfile ploc body c,
   Model.LiftFull.lift_to_ir kind params pfile ploc body = Ok c ->
   NoDup (map Model.Ast.stmt_meta (Proofs.LiftFullC08.source_signal_assignments body)) ->
@@ -192,17 +184,67 @@ Print Assumptions C08_liftfull_distinct_sources_distinct_subkeys.
 
 (* The hypothesis of that theorem is EVALUATED: Model.SigAssignSource.source_metas_distinct_b is
    the boolean the extracted driver of the liftfull engine computes for every definition
-   ./check C08 explores (coverage key `liftfull_hypothesis`); it implies the hypothesis.  It is
+   ./check C08 explores (coverage key `liftfull_hypothesis`); it implies the hypothesis
+   (Proofs.LiftFullC08.source_metas_distinct_b_sound: glue about the model's own decision
+   procedure, a lemma, no longer listed as an obligation - third audit).  It is
    not met by every valid input: the elements of a declaration tuple `signal (a, b) <-- (x, y)`
    all get the declaration's own Meta, so their metas coincide although their subkeys do not;
    on those definitions the conclusion [subkeys_distinct] is evaluated directly
    (Model.SigAssignSource.lifted_subkeys_distinct_b) instead of being inferred. *)
 Require Model.SigAssignSource.
-Theorem C08_liftfull_source_metas_distinct_b_sound : forall body,
-  Model.SigAssignSource.source_metas_distinct_b body = true ->
-  NoDup (map Model.Ast.stmt_meta (Proofs.LiftFullC08.source_signal_assignments body)).
-Proof. exact Proofs.LiftFullC08.source_metas_distinct_b_sound. Qed.
-Print Assumptions C08_liftfull_source_metas_distinct_b_sound.
+
+(* ---- through SSA (third audit: "SSA keeps the operators" used to be observed only) ----
+   Model.Ssa.into_ssa is the mirror of `into_ssa` (compared with the real one on every run by
+   C14's engine).  For every graph, every frontier / children table, every outcome of the
+   fuelled loops, and without any hypothesis on the graph: block i of the SSA form is some
+   number of inserted phi statements - substitutions with Meta::default() and the operator
+   `=` - followed by statements with exactly the metas and assignment operators (None for a
+   statement that is no substitution) of block i of the input, in the same order.  No `<--`
+   is lost, duplicated, moved to another block, or turned into `<==` / `=`; no other
+   statement becomes a `<--`. *)
+Require Model.Ssa Proofs.SigAssignSsa.
+
+Theorem C08_ssa_keeps_operators : forall frontier children c c',
+  Model.Ssa.into_ssa frontier children c = Model.Ssa.SOk c' ->
+  Forall2 (fun b b' => exists k,
+             map otag (b_stmts b')
+             = repeat ({| m_start := 0%N; m_end := 0%N; m_file := None |}, Some OpVar) k
+               ++ map otag (b_stmts b))
+          (c_blocks c) (c_blocks c').
+Proof. exact Proofs.SigAssignSsa.ssa_blocks_keep_operators. Qed.
+Print Assumptions C08_ssa_keeps_operators.
+
+(* so the `<--` statements of the SSA graph are those of the graph before: number, order, metas *)
+Theorem C08_ssa_keeps_signal_assignments : forall frontier children c c',
+  Model.Ssa.into_ssa frontier children c = Model.Ssa.SOk c' ->
+  map stmt_meta (assign_stmts c') = map stmt_meta (assign_stmts c).
+Proof. exact Proofs.SigAssignSsa.ssa_keeps_signal_assignments. Qed.
+Print Assumptions C08_ssa_keeps_signal_assignments.
+
+(* From the source to the graph the pass walks: Model.LiftFull followed by Model.Ssa.  The
+   `<--` statements of every graph [g] with the blocks of the SSA form (Model.Ssa does not
+   compute the declaration table of the SSA graph: any kind, parameters, declarations) are the
+   images of the `<--` / `-->` statements of the desugared body, and when those have pairwise
+   different metas, [subkeys_distinct g] - the hypothesis of C08_sigassign_bijection_source_keys
+   - holds.  (The hypothesis NoDup is evaluated per definition, see below; [constraint_keys_distinct]
+   stays a hypothesis evaluated on the dumped graph.) *)
+Theorem C08_source_to_ssa_signal_assignments :
+  forall kind params pfile ploc body c frontier children c' g,
+  Model.LiftFull.lift_to_ir kind params pfile ploc body = Ok c ->
+  Model.Ssa.into_ssa frontier children c = Model.Ssa.SOk c' ->
+  c_blocks g = c_blocks c' ->
+  NoDup (map Model.Ast.stmt_meta (Proofs.LiftFullC08.source_signal_assignments body)) ->
+  subkeys_distinct g /\
+  map stmt_meta (assign_stmts g)
+  = map (fun s => Proofs.LiftFullC08.ir_meta (Model.Ast.stmt_meta s)) (Proofs.LiftFullC08.source_signal_assignments body).
+Proof. exact Proofs.SigAssignSsa.source_to_ssa_distinct_subkeys_any_decls. Qed.
+Print Assumptions C08_source_to_ssa_signal_assignments.
+
+(* the SSA form of [ex_cfg] (one block: no frontier, no children) exists and keeps its two `<--` *)
+Example C08_example_ssa :
+  exists c', Model.Ssa.into_ssa [[]] [[]] ex_cfg = Model.Ssa.SOk c' /\
+             map stmt_meta (assign_stmts c') = [ex_m 10 23; ex_m 42 50].
+Proof. eexists. split; vm_compute; reflexivity. Qed.
 
 (* `template T() { signal input a; signal output b; signal c; b <-- a; c <== a; c --> b; }`
    (declarations omitted from the body): two AssignSignal statements, at 10..17 and 27..34 *)
